@@ -399,5 +399,35 @@ def run(chk, prog):
     # order) and overwrites the shared field with its default when the file is read back (alias table: decided under C20 R3; the
     # no-default clause is re-evaluated here)
     reeval(chk, prog, "C20", lambda i: i["rule"] == "R3" and "has no default" in i["what"], "R9", "R9-alias-defaults", 3)
+    # ---- R10: a string value is written exactly as it was parsed -------------------------------------------------------------------------------------
+    # boost's config-file parser takes everything after '=' literally (no quoting, no escapes): whatever reaches the stream for a string option
+    # must be the value taken out of the variables map - a local holding it is assigned from as<std::string>() and from nothing else
+    svidx = A.index(sv)
+    str_locals = {}
+    for st_ in A.walk(sv["body"]):
+        if st_.get("k") == "DeclStmt":
+            for d_ in st_.get("decls", []):
+                if d_.get("k") == "VarDecl" and "basic_string" in (d_.get("ctype") or ""):
+                    str_locals[d_["decl"]] = d_
+    n10 = 0
+    for dcl, d_ in str_locals.items():
+        inserted = [y for y in A.walk(sv["body"]) if y.get("k") == "CXXOperatorCallExpr" and y.get("op") == "<<" and len(y.get("args", [])) == 2 and
+                    (A.declref(y["args"][1]) or {}).get("decl") == dcl]
+        if not inserted:
+            continue
+        writes = []
+        for y in A.walk(sv["body"]):
+            if y.get("k") == "CXXOperatorCallExpr" and y.get("op") in ("=", "+=") and len(y.get("args", [])) == 2 and (A.declref(y["args"][0]) or {}).get("decl") == dcl:
+                writes.append((y, y["args"][1]))
+            if y.get("k") == "CXXMemberCallExpr" and (y.get("callee") or "").split("::")[-1] in ("append", "insert", "replace", "push_back", "erase", "assign") and \
+                    A.call_object(y) is not None and (A.declref(A.call_object(y)) or {}).get("decl") == dcl:
+                writes.append((y, None))
+        for y, rhs in writes:
+            src_ok = rhs is not None and y.get("op") == "=" and any((z.get("callee") or "").endswith("::as") or "any_cast" in (z.get("callee") or "") for z in A.walk(rhs)) and \
+                not any(z.get("k") == "CXXOperatorCallExpr" and z.get("op") == "+" for z in A.walk(rhs))
+            n10 += 1
+            chk.check(src_ok, "R10", A.loc(sv, y), "the string %s written to the file is taken from the variables map unchanged (%s)" % (d_["name"], A.show(y)[:70]),
+                      "save:string-value-modified:%s" % d_["name"])
+    chk.floor("R10-string-values", n10, 1)
     chk.notes.append("C13: option table (%d declarations) x writer type chain x skip list x re-readability, substituted-value "
                      "implication, precision, ordering. Exhaustive over the option table. Not decided: boost's parser." % len(t.options))
